@@ -449,7 +449,8 @@ Proof.
   - injection E as <- <- <-. repeat split; [constructor|assumption|intros; lia].
   - inversion HX as [|? ? Hx Hrest]; subst. apply xenv_wf_hd in Hk. destruct Hk as [Hk1 Hk2].
     destruct (Z.eqb_spec (x_kind x) kind) as [Hd|Hd].
-    + destruct (ext_tick now (hd_xenv xe) (b (x_denom x)) x) as [[[x1 bal1] paid]| |] eqn:Et; try discriminate.
+    + destruct (xe_halt (hd_xenv xe)); [discriminate|].
+      destruct (ext_tick now (hd_xenv xe) (b (x_denom x)) x) as [[[x1 bal1] paid]| |] eqn:Et; try discriminate.
       destruct (run_exts kind now rest (tl xe) (bset b (x_denom x) bal1)) as [[[xs1 b1] ps1]| |] eqn:Er; try discriminate.
       injection E as <- <- <-.
       pose proof (ext_tick_step _ _ _ _ _ _ _ Et Hx (HB _) Hk1) as (T1 & T2 & T3 & T4 & T5).
@@ -542,6 +543,7 @@ Proof.
   - inversion HX as [|? ? Hx Hrest]; subst. cbn [kf4_pass] in Hk.
     destruct (Z.eqb_spec (x_kind x) 2) as [Hd|Hd].
     + apply orb_false_iff in Hk. destruct Hk as [Hk1 Hk2].
+      destruct (le_halt (hd_lenv le)); [discriminate|].
       pose proof (lend_tick_indep now (hd_lenv le) arr tot (b (x_denom x)) 0 x) as Hi.
       destruct (lend_tick now (hd_lenv le) arr tot (b (x_denom x)) x) as [[[[[[x1 bal1] paid] arr1] tot1]|]| |] eqn:Et; try discriminate.
       2:{ injection E as <- <- <-. repeat split; [assumption|assumption|intros; lia]. }
@@ -697,7 +699,8 @@ Proof.
   induction xs as [|x rest IH]; intros xe b xs' b' ps E; cbn [run_exts] in E.
   - injection E as <- <- <-. reflexivity.
   - destruct (x_kind x =? kind).
-    + destruct (ext_tick now (hd_xenv xe) (b (x_denom x)) x) as [[[x1 bal1] paid]| |] eqn:Et; try discriminate.
+    + destruct (xe_halt (hd_xenv xe)); [discriminate|].
+      destruct (ext_tick now (hd_xenv xe) (b (x_denom x)) x) as [[[x1 bal1] paid]| |] eqn:Et; try discriminate.
       destruct (run_exts kind now rest (tl xe) (bset b (x_denom x) bal1)) as [[[xs1 b1] ps1]| |] eqn:Er; try discriminate.
       injection E as <- <- <-. cbn [map]. rewrite (ext_tick_kind _ _ _ _ _ _ _ Et), (IH _ _ _ _ _ Er). reflexivity.
     + destruct (run_exts kind now rest (tl xe) b) as [[[xs1 b1] ps1]| |] eqn:Er; try discriminate.
@@ -726,7 +729,8 @@ Proof.
   induction xs as [|x rest IH]; intros le arr tot b xs' b' ps E; cbn [run_lends] in E.
   - injection E as <- <- <-. reflexivity.
   - destruct (x_kind x =? 2).
-    + destruct (lend_tick now (hd_lenv le) arr tot (b (x_denom x)) x) as [[[[[[x1 bal1] paid] arr1] tot1]|]| |] eqn:Et; try discriminate.
+    + destruct (le_halt (hd_lenv le)); [discriminate|].
+      destruct (lend_tick now (hd_lenv le) arr tot (b (x_denom x)) x) as [[[[[[x1 bal1] paid] arr1] tot1]|]| |] eqn:Et; try discriminate.
       2:{ injection E as <- <- <-. reflexivity. }
       destruct (run_lends now rest (tl le) arr1 tot1 (bset b (x_denom x) bal1)) as [[[xs1 b1] ps1]| |] eqn:Er; try discriminate.
       injection E as <- <- <-. cbn [map]. rewrite (lend_tick_kind _ _ _ _ _ _ _ _ _ _ _ Et), (IH _ _ _ _ _ _ _ Er). reflexivity.
